@@ -425,10 +425,13 @@ impl Expr {
 				let mut inner = inner.into_inner();
 				let func_name = inner.next().unwrap().as_str().to_string();
 				let mut args = vec![];
-				for arg in inner {
-					args.push(Self::from_rule(arg));
+				// The arguments sit inside one func_call_args pair
+				if let Some(call_args) = inner.next() {
+					for arg in call_args.into_inner() {
+						args.push(Self::from_rule(arg));
+					}
 				}
-				Self::FuncCall(func_name,args) // TODO: handle function calls properly
+				Self::FuncCall(func_name,args)
 			}
 			Rule::ternary => {
 				let mut inner = inner.into_inner();
